@@ -115,6 +115,57 @@ func c01Sweep() []string {
 		"(k -> (y -> let z = k + y; let k = z + 1; k * 2)(k))(a)",
 		"let k = a; let f = (y -> k + y); let g = (k -> f(k) * 2); g(5) + f(1)",
 	)
+	// deferred iteration: a lazy list is created, further locals are bound (the stack grows), the list is iterated
+	// for the first time, then the locals are read: a stage must run its callbacks on the stack of the iteration
+	for _, st := range []string{".map(e -> e + 1)", ".accept(e -> e % 2 = 0)", ".combine((x, y) -> x + y)", ".combine3((x, y, z) -> x + y - z)", ".combineN(2, w -> w.sum())",
+		".number((i, e) -> i * e)", ".iir(e -> e, (e, p) -> e + p)", ".iirCombine(e -> e, (u, e, p) -> e - u + p)", ".compact((x, y) -> x = y)", ".merge([2, 4, 8], (x, y) -> x < y)",
+		".cross([1, 2], (x, y) -> x * y)", ".movingWindow(e -> e).map(w -> w.size())", ".order(e -> 0 - e)", ".orderLess((x, y) -> x > y)", ".replaceList(q -> q.map(e -> e + 1))"} {
+		for _, recv := range []string{"l", "[1, 1, 2, 3, 3, a]", "l.append(a)"} {
+			for _, form := range []string{
+				"let d0 = @L; let x0 = a + 1; let y0 = x0 * 2; let u0 = d0.string(); [u0, y0, x0].string()",
+				"let d0 = @L; max(a + 1, a + 2, let u0 = d0.string().len(); u0, a + 3)",
+				"(v0 -> let d0 = @L; let x0 = v0 + 1; let y0 = x0 * 2; [d0.string(), y0, x0].string())(a)",
+				"let d0 = @L; let f0 = (p0, q0, r0) -> [d0.string(), p0, q0, r0].string(); f0(a + 1, a + 2, a + 3)",
+			} {
+				res = append(res, strings.ReplaceAll(form, "@L", recv+st))
+			}
+		}
+	}
+	// shadowing sweep: a name bound outside (let, closure parameter, func parameter, the argument itself), captured
+	// by a closure/func that binds it again (let after a use, parameter, let defined from the outer value), and used
+	// below that binding directly or from closures nested there (which capture the NEW binding)
+	outers := []string{"let k = a + 1; @B", "(k -> @B)(a + 1)", "func o(k) @B; o(a + 1)", "@B"}
+	middles := []string{
+		"(y -> let z = k + y; let k = z * 10; @U)(1)",
+		"(y -> (k -> @U)(k + y))(1)",
+		"(y -> let k = k * 10 + y; @U)(2)",
+		"func f(y) let k = k + y; @U; f(3)",
+		"[1, 2].map(y -> let k = k + y; @U).sum()",
+		"{g: y -> let k = k * 2 + y; @U}.g(4)",
+	}
+	useAt := []string{"k + 1", "(w -> k + w)(1)", "[1, 2].map(e -> k + e).sum()", "{f: w -> k + w}.f(1)", "let g = w -> k + w; g(1) + g(2)",
+		"func h(w) if w = 0 then k else h(w - 1) + k; h(2)", "(w -> (v -> k + v + w)(1))(2)", "(try [1][k + 100] catch k + 1)", "(w -> k + w)"}
+	for oi, o := range outers {
+		for _, m := range middles {
+			for _, u := range useAt {
+				src := strings.ReplaceAll(strings.ReplaceAll(o, "@B", m), "@U", u)
+				if u == "(w -> k + w)" { // the closure leaves the scope in which the name was bound again
+					if strings.Contains(m, ".map(") {
+						continue
+					}
+					src = strings.ReplaceAll(strings.ReplaceAll(o, "@B", "let r = "+strings.ReplaceAll(m, "@U", u)+"; r(5)"), "@U", u)
+					if strings.HasPrefix(m, "func f") {
+						src = strings.ReplaceAll(o, "@B", "func f(y) let k = k + y; (w -> k + w); f(3)(5)")
+					}
+				}
+				if oi == 3 {
+					src = strings.ReplaceAll(src, "k", "a")
+					src = strings.ReplaceAll(src, "traa", "try") // keep keywords intact
+				}
+				res = append(res, src)
+			}
+		}
+	}
 	return res
 }
 
@@ -256,6 +307,37 @@ func runC01(c *Ctx) {
 		add(src, 2)
 	}
 
+	var specFallback []*langCase
+	defer func() {
+		var reqs []string
+		for _, cs := range specFallback {
+			var nb, ab strings.Builder
+			for i, n := range cs.names {
+				if i > 0 {
+					nb.WriteByte(' ')
+					ab.WriteByte(' ')
+				}
+				nb.WriteString(cps(n))
+				argTokens(cs.args[i], &ab)
+			}
+			reqs = append(reqs, fmt.Sprintf("SPEC\t%d\t%s\t%s\t%s", fuel, nb.String(), ab.String(), cs.ast))
+		}
+		for i, mo := range c.Model(reqs) {
+			cs := specFallback[i]
+			c.Count("spec-fallback:" + strings.SplitN(mo, " ", 2)[0])
+			if mo == "BADREQ" || mo == "UNMODELLED" || mo == "FUEL" {
+				continue
+			}
+			replay := map[string]any{"program": cs.src, "arg_names": cs.names, "request": reqs[i], "impl_optimizer_off": cs.implOff, "impl_optimizer_on": cs.implOn, "library_spec": mo}
+			if cs.implOff != mo {
+				c.disagree++
+				c.Violation(c01Signature(cs), "Generate+Eval (optimizer off) differs from the reference semantics over the eager library specification", replay)
+			} else if cs.implOn != mo {
+				c.disagree++
+				c.Violation("optimized-differs-from-reference", "Generate+Eval (optimizer on) differs from the reference semantics over the eager library specification", replay)
+			}
+		}
+	}()
 	runLangCases(c, cases, fuel, func(cs *langCase, mc, mr string) {
 		if len(c.samples) < 5 && cs.bindInArg > 0 {
 			c.Sample(map[string]any{"program": cs.src, "impl": cs.implOff, "model_compiled": mc, "model_reference": mr})
@@ -264,7 +346,13 @@ func runC01(c *Ctx) {
 			c.Violation("panic-escaped-eval", "a Go panic escaped Func.Eval", map[string]any{"program": cs.src, "impl": cs.implOff})
 			return
 		}
-		if mr == "FUEL" || mr == "UNMODELLED" || mc == "FUEL" || mc == "UNMODELLED" {
+		if mr == "UNMODELLED" {
+			// a built-in outside the compiled model's library: the eager library specification (C07) with the
+			// reference semantics for everything else decides
+			specFallback = append(specFallback, cs)
+			return
+		}
+		if mr == "FUEL" || mc == "FUEL" || mc == "UNMODELLED" {
 			c.Count("skipped:" + mr + "/" + mc)
 			return
 		}
